@@ -8,7 +8,7 @@
 (*           grid.                                                                        *)
 (*   Judge : token streams / error positions of the real lexer, outcome typing of every   *)
 (*           evaluation (front-end soup, corpus prefixes, mutations, built-in grid).      *)
-EXTENDS LexerFSM, JsVal, Json, IOUtils
+EXTENDS LexerFSM, JsGrammar, JsVal, Json, IOUtils
 
 Tier  == IF "TIER" \in DOMAIN IOEnv THEN IOEnv.TIER ELSE "quick"
 Quick == Tier = "quick"
@@ -21,9 +21,9 @@ AlphaC == <<"=", "<", ">", "!", "&", "*", "+", "/", "g", "b", "o", "0", "7">>   
 Alpha(pf) == CASE pf = "A" -> AlphaA [] pf = "B" -> AlphaB [] pf = "C" -> AlphaC
 Profiles == IF "PROFILE" \in DOMAIN IOEnv THEN {IOEnv.PROFILE} ELSE {"A", "B", "C"}
 MaxLen == EnvInt("MAXLEN", IF Quick THEN 4 ELSE 6)
-\* sequences the reference would read as ES2016+/ES2021 tokens the engine does not have (**=, &&=): not generated
+\* sequences the reference would read as ES2021 tokens the engine does not have (&&= ||=): not generated
 HasSubseq(inp, pat) == \E si \in 1..(Len(inp) - Len(pat) + 1) : SubSeq(inp, si, si + Len(pat) - 1) = pat
-Supported(inp) == ~HasSubseq(inp, <<"*", "*", "=">>) /\ ~HasSubseq(inp, <<"&", "&", "=">>)
+Supported(inp) == ~HasSubseq(inp, <<"&", "&", "=">>)
 
 \* ---------------- model checking + enumeration of class strings ------------------------------
 VARIABLES ph, pf, inp, rec_i
@@ -54,17 +54,35 @@ ArgVectors == {<<>>} \cup {<<xa>> : xa \in ArgSet} \cup {<<xa, ya>> : xa \in Arg
 Huge == {"p31", "p53", "e21"}
 \* calls that legitimately allocate memory proportional to a numeric argument are not made with huge arguments
 Allocating == {"repeat", "Array", "ArrayBuffer", "Int8Array", "Uint8Array", "Uint8ClampedArray", "Int16Array", "Uint16Array",
-               "Int32Array", "Uint32Array", "Float32Array", "Float64Array", "padStart", "padEnd", "fill", "from"}
+               "Int32Array", "Uint32Array", "Float32Array", "Float64Array", "padStart", "padEnd", "fill", "from", "constructor"}
 CallSupported(fname, args) == ~(fname \in Allocating /\ \E ai \in 1..Len(args) : args[ai] \in Huge)
 GridInit == ph = "start" /\ pf = "" /\ inp = <<>> /\ rec_i = 0
 GridNext == ph = "start" /\ ph' = "vec" /\ (\E av \in ArgVectors : inp' = av) /\ UNCHANGED <<pf, rec_i>>
 GridEmit == ph # "vec" \/ PrintT(ToJson([kind |-> "vec", pf |-> "", cls |-> inp]))
 
+\* ---------------- token sequences over the expression vocabulary (S->C, acceptor) ---------------------------
+\* Bound <= 4: within it JsGrammar!ParseStmtsD covers every ECMAScript program over this vocabulary (arrow functions
+\* with two parameters and destructuring patterns need more tokens).
+ExprVocab == <<"a", "b", "1", "+", "-", "*", "**", "=", "+=", "++", "!", "typeof", "new", "this", "(", ")", "[", "]", ",", ".",
+               "?", ":", "=>", ";", "in">>
+TokMax == IF Quick THEN 3 ELSE 4
+RECURSIVE SeqsUpTo(_)
+SeqsUpTo(nn) == IF nn = 0 THEN {<<>>} ELSE LET sm == SeqsUpTo(nn - 1) IN sm \cup {Append(sq, ExprVocab[vi]) : sq \in sm, vi \in 1..Len(ExprVocab)}
+TokInit == ph = "tstart" /\ pf = "" /\ inp = <<>> /\ rec_i = 0
+TokNext == \/ ph = "tstart" /\ ph' = "tfirst" /\ (\E vi \in 1..Len(ExprVocab) : inp' = <<ExprVocab[vi]>>) /\ UNCHANGED <<pf, rec_i>>
+           \/ ph = "tfirst" /\ ph' = "tseq" /\ (\E sq \in SeqsUpTo(TokMax - 1) : inp' = inp \o sq) /\ UNCHANGED <<pf, rec_i>>
+TokEmit == ph # "tseq" \/ PrintT(ToJson([kind |-> "toks", pf |-> "", cls |-> inp]))
+\* the acceptor is total, answers with a token index, and accepts a program followed by a separator
+TokLaw == ph = "tseq" => LET res == ParseStmtsD(inp, {}) IN
+            /\ (res.ok => res.at = 0) /\ (~res.ok => res.at >= 1 /\ res.at <= Len(inp) + 1)
+            /\ (res.ok => ParseStmtsD(inp \o <<";">>, {}).ok)                     \* a trailing separator never hurts
+            /\ (res.ok => ParseStmtsD(inp, ParserDevs).ok)                        \* the as-is parser accepts a superset
+
 \* ---------------- Judge ------------------------------------------------------------------------
 \* records: [id, kind, cls, toks, lex, out, lens, fname, args]
 \*   lex  = [o: "tokens" | "syntax" | other, line, col]      what Lexer(src).tokenize() did   (kind "cls")
 \*   toks = tokens of the real lexer as [k, line, col]
-\*   out  = [o, line, col, type, where]                      what Context.eval(src) did
+\*   out  = [o, line, col, steps, type, where]               what Context.eval(src) did (steps = interpreter steps executed)
 \*   lens = line lengths of the source                        (position sanity for arbitrary text)
 Recs == ndJsonDeserialize(IOEnv.OBS_FILE)
 Pass == [v |-> "pass", dev |-> "", why |-> ""]
@@ -72,15 +90,47 @@ Mis(dv, wy) == [v |-> "mismatch", dev |-> dv, why |-> wy]
 PickDev(fs) == IF fs = {} THEN "" ELSE CHOOSE dd \in fs : TRUE
 PosSaneL(lens, line, col) == line >= 1 /\ line <= Len(lens) /\ col >= 1 /\ col <= lens[line] + 1
 
-\* host exceptions that are recorded findings: (exception type, innermost engine frame) -> deviation
-\* (each deviation is one root cause; the argument classes that reach it are listed in known_findings/C04.json)
-HostSites == [x \in {} |-> ""]
-HostDev(out) == ""
+\* host exceptions that are recorded findings.  Identity = (exception type, innermost engine frame file:function,
+\* kind of case, built-in name, argument classes that reach it); each deviation is one root cause.
+AnyArg == {"*"}
+HostSites == {
+  [dev |-> "Dev_ToPythonCycle", type |-> "RecursionError", where |-> {"context.py:_to_python", "context.py:<dictcomp>", "context.py:<listcomp>"},
+   kinds |-> {"call", "src", "cls"}, fnames |-> AnyArg, args |-> AnyArg],
+  [dev |-> "Dev_ArrayLengthArg", type |-> "TypeError", where |-> {"context.py:constructor_fn"},
+   kinds |-> {"call"}, fnames |-> {"ArrayBuffer"}, args |-> {"undefined", "null", "obj", "arr", "fn"}],
+  [dev |-> "Dev_ArrayLengthArg", type |-> "ValueError", where |-> {"context.py:constructor_fn", "values.py:__init__"},
+   kinds |-> {"call"}, fnames |-> {"ArrayBuffer"}, args |-> {"nan", "sx", "m1"}],
+  [dev |-> "Dev_ArrayLengthArg", type |-> "OverflowError", where |-> {"context.py:constructor_fn", "values.py:__init__"},
+   kinds |-> {"call"}, fnames |-> {"ArrayBuffer"}, args |-> {"inf", "ninf"}],
+  [dev |-> "Dev_ArrayLengthArg", type |-> "OverflowError", where |-> {"context.py:array_constructor", "values.py:__init__"},
+   kinds |-> {"call"}, fnames |-> {"Array", "constructor"}, args |-> {"inf", "ninf"}],
+  [dev |-> "Dev_ArrayLengthArg", type |-> "ValueError", where |-> {"context.py:array_constructor", "values.py:__init__"},
+   kinds |-> {"call"}, fnames |-> {"Array", "constructor"}, args |-> {"nan", "m1"}],
+  [dev |-> "Dev_ArrayLengthArg", type |-> "MemoryError", where |-> {"values.py:__init__"},
+   kinds |-> {"call"}, fnames |-> {"Array", "ArrayBuffer", "constructor"}, args |-> {"m1", "ninf"}],
+  [dev |-> "Dev_CompilerSyntaxError", type |-> "SyntaxError", where |-> {"compiler.py:_compile_statement"},
+   kinds |-> {"src", "cls"}, fnames |-> AnyArg, args |-> AnyArg],
+  [dev |-> "Dev_ToPrimitiveBound", type |-> "TypeError", where |-> {"vm.py:_to_primitive"},
+   kinds |-> {"call", "src", "cls"}, fnames |-> AnyArg, args |-> AnyArg],
+  [dev |-> "Dev_RegExpError", type |-> "RegExpError", where |-> {"parser.py:parse", "parser.py:_parse_alternative", "parser.py:_parse_escape",
+                                                                "parser.py:_parse_atom", "parser.py:_parse_quantifier", "parser.py:_parse_group",
+                                                                "parser.py:_parse_char_class", "parser.py:_parse_term", "parser.py:_parse_disjunction"},
+   kinds |-> {"call", "src", "cls"}, fnames |-> AnyArg, args |-> AnyArg]
+}
+HostDevOf(r) ==
+  LET S == {hs \in HostSites :
+              /\ r.out.o = "host" /\ hs.type = r.out.type /\ r.out.where \in hs.where /\ r.kind \in hs.kinds
+              /\ (hs.fnames = AnyArg \/ r.fname \in hs.fnames)
+              /\ (hs.args = AnyArg \/ \E ai \in 1..Len(r.args) : r.args[ai] \in hs.args)}
+  IN IF S = {} THEN "" ELSE (CHOOSE hs \in S : TRUE).dev
 
-\* typing of an evaluation outcome
-Typing(out, lens) ==
-  IF ~InJSErrorFamily(out) THEN Mis(HostDev(out), "outcome outside the JSError family")
-  ELSE IF out.o = "syntax" /\ ~PosSaneL(lens, out.line, out.col) THEN Mis("", "syntax error position outside the source")
+\* typing of an evaluation outcome.  A JSSyntaxError raised before the first interpreter step is a front-end
+\* error and must carry a position inside the source text (or at its end); one raised while running (JSON.parse,
+\* new RegExp, eval of a string) is a runtime error of the JSError family.
+Typing(r, lens) ==
+  LET out == r.out IN
+  IF ~InJSErrorFamily(out) THEN Mis(HostDevOf(r), "outcome outside the JSError family")
+  ELSE IF out.o = "syntax" /\ out.steps = 0 /\ ~PosSaneL(lens, out.line, out.col) THEN Mis("", "syntax error position outside the source")
   ELSE Pass
 
 \* does the real lexer's answer match a run of the machine ?
@@ -91,7 +141,7 @@ LexMatches(cls, lex, toks, st) ==
 \*  R1: no '/' token was produced before the error and the error is not about a regular expression
 \*  R2: the unterminated regular expression is the first token of the program
 MustReject(st) ==
-  /\ st.err.k # "none" /\ ~st.err.lenient
+  /\ st.err.k # "none" /\ st.err.lenient = ""
   /\ IF st.err.k = "unterminated-regex" THEN st.out = <<>>
      ELSE \A ti \in 1..Len(st.out) : st.out[ti].k \notin {"/", "/=", "regex"}
 JudgeCls(r) ==
@@ -99,12 +149,13 @@ JudgeCls(r) ==
       lens == [li \in 1..(1 + NlCount(r.cls)) |->
                  LET starts == LineStarts(r.cls) IN
                  (IF li < Len(starts) THEN starts[li + 1] - 1 ELSE Len(r.cls)) - starts[li]]
-      ty == Typing(r.out, lens) IN
+      ty == Typing(r, lens) IN
   IF ~LexMatches(r.cls, r.lex, r.toks, ref)
   THEN LET asis == Lex(r.cls, FALSE, LexDevs) IN
        IF r.lex.o \notin {"tokens", "syntax"} THEN Mis("", "lexer raised a host exception")
        ELSE IF asis.fired # {} /\ LexMatches(r.cls, r.lex, r.toks, asis) THEN Mis(PickDev(asis.fired), "lexer: as-is rule")
-       ELSE IF ref.err.k # "none" /\ ref.err.lenient /\ r.lex.o = "tokens" THEN Mis("Dev_LenientEscapeDigits", "lexer: escape digits")
+       ELSE IF ref.err.k # "none" /\ ref.err.lenient # "" /\ r.lex.o = "tokens" THEN Mis(ref.err.lenient, "lexer: malformed text accepted (opaque deviation)")
+       ELSE IF asis.err.k # "none" /\ asis.err.lenient # "" /\ r.lex.o = "tokens" THEN Mis(asis.err.lenient, "lexer: malformed text accepted (opaque deviation)")
        ELSE Mis("", IF ref.err.k = "none" THEN "token stream differs" ELSE "lexical error not reported at the offending token")
   ELSE IF ty.v # "pass" THEN ty
   ELSE LET rx == Lex(r.cls, TRUE, {}) IN
@@ -116,15 +167,32 @@ JudgeCls(r) ==
        THEN Mis("", "error reported after the offending token")
        ELSE Pass
 
-JudgeSrc(r) == Typing(r.out, r.lens)
+JudgeSrc(r) == Typing(r, r.lens)
+\* text of a token sequence = tokens joined by one blank: 0-based offset of the end of token ti (end of text beyond the last)
+RECURSIVE TokStart(_, _)
+TokStart(ts, ti) == IF ti <= 1 THEN 0 ELSE TokStart(ts, ti - 1) + Len(ts[ti - 1]) + 1
+TokEndOff(ts, ti) == IF ti > Len(ts) THEN TokStart(ts, Len(ts)) + Len(ts[Len(ts)]) ELSE TokStart(ts, ti) + Len(ts[ti])
+JudgeToks(r) ==
+  LET ty == Typing(r, r.lens)
+      ref == ParseStmtsD(r.toks, {}) IN
+  IF ty.v # "pass" THEN ty
+  ELSE IF ref.ok THEN Pass                  \* the engine may implement a subset: acceptance of valid text is not demanded here
+  ELSE IF r.out.o = "syntax"
+       THEN IF r.out.steps = 0 /\ r.out.line = 1 /\ r.out.col - 1 <= TokEndOff(r.toks, ref.at) THEN Pass
+            ELSE Mis("", "syntax error reported after the first token that cannot continue a program")
+  ELSE LET S1 == {dd \in ParserDevs : ParseStmtsD(r.toks, {dd}).ok} IN
+       IF S1 # {} THEN Mis(CHOOSE dd \in S1 : TRUE, "malformed token sequence accepted (as-is parser rule)")
+       ELSE IF ParseStmtsD(r.toks, ParserDevs).ok THEN Mis(CHOOSE dd \in ParserDevs : TRUE, "malformed token sequence accepted (as-is parser rules)")
+       ELSE Mis("", "malformed token sequence accepted")
 JudgeCall(r) ==
   IF ~CallSupported(r.fname, r.args) THEN [v |-> "unsupported", dev |-> "", why |-> "allocating call with a huge argument"]
-  ELSE Typing(r.out, <<0>>)
+  ELSE Typing(r, <<0>>)
 
 Verdict(r) ==
   CASE r.kind = "cls" -> JudgeCls(r)
     [] r.kind = "src" -> JudgeSrc(r)
     [] r.kind = "call" -> JudgeCall(r)
+    [] r.kind = "toks" -> JudgeToks(r)
     [] OTHER -> [v |-> "unsupported", dev |-> "", why |-> "unknown kind"]
 JudgeInit == /\ rec_i \in 1..Len(Recs) /\ ph = "judge" /\ pf = "" /\ inp = <<>>
              /\ LET r == Recs[rec_i]  vd == Verdict(r)
